@@ -83,10 +83,41 @@ pub fn upload_run(args: &[String]) -> anyhow::Result<()> {
             std::fs::write(&p, rng.bytes(n))?;
             unrelated.push(u.to_string());
         }
+        // ... and files whose names are near misses of recognised ones (another case, a backup suffix, one directory deeper):
+        // they are not the artefacts, whether or not the artefact itself is there
+        for _ in 0..rng.range(0, 2) {
+            let (path, _) = PATHS[rng.below(PATHS.len() as u64) as usize];
+            let (d, b) = path.split_once('/').unwrap();
+            let u = match rng.below(6) {
+                0 => format!("{}/{}", d, b.to_uppercase()),
+                1 => format!("{}/{}", d.to_uppercase(), b),
+                2 => format!("{}/{}{}", d, &b[..1].to_uppercase(), &b[1..]),
+                3 => format!("{}/{}~", d, b),
+                4 => format!("old/{}/{}", d, b),
+                _ => format!("{}/{}.orig", d, b),
+            };
+            let p = dir.join(&u);
+            if p.exists() {
+                continue;
+            }
+            std::fs::create_dir_all(p.parent().unwrap())?;
+            let n = rng.range(1, 80) as usize;
+            std::fs::write(&p, rng.bytes(n))?;
+            unrelated.push(u);
+        }
         // one upload in five sits at the length switches: answers whose payload makes the body 254 / 255 / 256 bytes long or a
         // TLV length 127 / 128, 255 / 256 (block size or last block of 100..135 / 225..265 bytes)
-        let at_switch = rng.chance(1, 5);
-        let switch_len = |rng: &mut Rng| -> u32 { if rng.chance(1, 2) { rng.range(100, 135) as u32 } else { rng.range(225, 265) as u32 } };
+        // (the lengths right at the switches - 113..131 and 240..258, so that the payload, the file object around it (+11) and the
+        // container around that (+2) each pass 127 / 128 and 255 / 256 - are walked through one by one, whatever the seed)
+        let walking = k % 3 == 0;
+        let at_switch = walking || rng.chance(1, 8);
+        let walk = (k / 3) + (seed as usize % 1000) * 7;
+        let switch_len = move |rng: &mut Rng| -> u32 {
+            if walking {
+                let list: Vec<u32> = (113..=131).chain(240..=258).collect();
+                list[walk % list.len()]
+            } else if rng.chance(1, 2) { rng.range(100, 135) as u32 } else { rng.range(225, 265) as u32 }
+        };
         let block: u32 = if at_switch && rng.chance(1, 2) { switch_len(&mut rng) } else { match rng.below(6) {
             0 => 1,
             1 => rng.range(2, 16) as u32,
